@@ -38,6 +38,10 @@ def width_of(qt):
         qt = qt[6:]
     if qt in U64_TYPES or qt.endswith("*") or qt.endswith("* const"):
         return 64
+    if qt == "auto":
+        # local of an uninstantiated template pattern (only accepted for guards, where the other operand fixes
+        # the width: a mismatch is rejected by the width check of the binary operator)
+        return 64
     if qt in U32_TYPES or qt in I32_TYPES:
         return 32
     if qt in U8_TYPES or qt in ("char", "signed char"):
@@ -139,6 +143,8 @@ def expr(n, cx):
     if k == "IntegerLiteral":
         w = width_of(ty(n))
         return "(%s#%d)" % (n["value"], w), w
+    if k in ("CXXNullPtrLiteralExpr", "GNUNullExpr"):
+        return "(0#64)", 64
     if k == "CXXBoolLiteralExpr":
         return ("true" if n.get("value") else "false"), 1
     if k == "DeclRefExpr":
@@ -159,7 +165,7 @@ def expr(n, cx):
             s, w = expr(inner[-1], cx)
             return s, 64
         s, w = expr(inner[-1], cx)
-        if ck in ("LValueToRValue", "NoOp", "FunctionToPointerDecay", "ArrayToPointerDecay", "BitCast",
+        if ck in ("LValueToRValue", "NoOp", "FunctionToPointerDecay", "ArrayToPointerDecay", "BitCast", "NullToPointer",
                   "ConstructorConversion", "UserDefinedConversion"):
             return s, w
         if ck == "IntegralCast":
@@ -280,6 +286,9 @@ def expr(n, cx):
         for lname, pws, rw in cands:
             if len(pws) == len(args) and all(pw == a[1] for pw, a in zip(pws, args)):
                 return "(%s %s)" % (lname, " ".join(a[0] for a in args)), rw
+        if not args and k == "CXXMemberCallExpr" and name:
+            # opaque nullary member call (e.g. stack_.top()): a free variable named after the method
+            return cx.var(name + "_", width_of(ty(n))), width_of(ty(n))
         raise TranslateError("call to untranslated function %s/%d" % (name, len(args)))
     raise TranslateError("unsupported expression kind %s" % k)
 
